@@ -70,7 +70,7 @@ func (e *Engine) verifyLemma(prop string, l *Lemma) (obls []*Obligation, errs st
 			v := Val{T: fc.U.Const("sk_"+sanitize(b.Name), s), S: s, GoT: t}
 			env.bound[b.Name] = v
 			if t != nil {
-				st.assume(fc.U.WF(v))
+				st.assume(fc.U.WFShallow(v))
 			}
 			fc.observe(b.Name, v, 0)
 		}
@@ -113,7 +113,7 @@ func (e *Engine) verifyInductive(prop string, l *Lemma, fc *FCtx, st *State, env
 			v := Val{T: fc.U.Const("sk"+tag+"_"+sanitize(b.Name), s), S: s, GoT: t}
 			env.bound[b.Name] = v
 			if t != nil {
-				st.assume(fc.U.WF(v))
+				st.assume(fc.U.WFShallow(v))
 			}
 		}
 	}
@@ -142,7 +142,7 @@ func (e *Engine) verifyInductive(prop string, l *Lemma, fc *FCtx, st *State, env
 		v := Val{T: fc.U.Const("sks_"+sanitize(b.Name), s), S: s, GoT: t}
 		env2.bound[b.Name] = v
 		if t != nil {
-			st2.assume(fc.U.WF(v))
+			st2.assume(fc.U.WFShallow(v))
 		}
 	}
 	env2.bound[l.Induct] = Val{T: fmt.Sprintf("(+ %s 1)", k), S: SInt}
